@@ -296,7 +296,7 @@ func (p *pgBoundValue) setTokenizedData(newData []byte, setting config.ColumnEnc
 		case tokens.TokenType_Int32:
 			newVal, err := strconv.ParseInt(string(newData), 10, 32)
 			if err != nil {
-				return err
+				return utils.ErrorWithoutValue(err)
 			}
 			output := make([]byte, 4)
 			binary.BigEndian.PutUint32(output[:], uint32(newVal))
@@ -304,7 +304,7 @@ func (p *pgBoundValue) setTokenizedData(newData []byte, setting config.ColumnEnc
 		case tokens.TokenType_Int64:
 			newVal, err := strconv.ParseInt(string(newData), 10, 64)
 			if err != nil {
-				return err
+				return utils.ErrorWithoutValue(err)
 			}
 			output := make([]byte, 8)
 			binary.BigEndian.PutUint64(output[:], uint64(newVal))
